@@ -134,7 +134,11 @@ def handle (j : Json) : Json :=
     jobj [("params", jarr (ps.map encParam)),
           ("to_string", jchars (sigToString (chars j "fname") ps (chars j "ret")))]
   | "pyaccepts" =>
-    jbool (pyAccepts (parseSig (obj j "sig")) (nat j "npos") ((strs j "kws").map String.toList))
+    let s := parseSig (obj j "sig")
+    let kws := (strs j "kws").map String.toList
+    jobj [("accepts", jbool (pyAccepts s (nat j "npos") kws)),
+          ("wrapper_runs", jbool (pyRunsKwWrapper s (nat j "npos") kws)),
+          ("forwarded_accepts", jbool (pyAccepts (kwForwarded s) (nat j "npos") kws))]
   | "pybound" =>
     -- the Python side of bound_eq_pyBound: parameters of `inspect.signature` of the bound method
     let s := parseSig (obj j "sig")
